@@ -489,7 +489,7 @@ impl Mp4Track {
 
             let chunk_id = sample_id
                 .checked_sub(first_sample)
-                .map(|n| n / samples_per_chunk)
+                .and_then(|n| n.checked_div(samples_per_chunk))
                 .and_then(|n| n.checked_add(first_chunk))
                 .ok_or(Error::InvalidData(
                     "attempt to calculate stsc chunk_id with overflow",
@@ -497,7 +497,12 @@ impl Mp4Track {
 
             let chunk_offset = self.chunk_offset(chunk_id)?;
 
-            let first_sample_in_chunk = sample_id - (sample_id - first_sample) % samples_per_chunk;
+            let first_sample_in_chunk = (sample_id - first_sample)
+                .checked_rem(samples_per_chunk)
+                .map(|n| sample_id - n)
+                .ok_or(Error::InvalidData(
+                    "attempt to calculate stsc chunk_id with overflow",
+                ))?;
 
             let mut sample_offset = 0;
             for i in first_sample_in_chunk..sample_id {
